@@ -185,7 +185,9 @@ def check(ctx):
     # (how statement i is paired with reaction i is C06's subject: when that pairing is spelled in a way C06.R1 does not read, this
     # property keeps its own half -- the rate comes out of <reaction>.rateexpr(..) and a refusal is not caught -- and says so in a note)
     pairing = []
-    ctx.absorb(assignment_rule, "R9", only=lambda o: not (o.outcome == UNRECOGNISED and o.key in ("_assign_rates:iteration", "_assign_rates:return") and (pairing.append(o.msg) or True)))
+    # (the same for the TEXT of the statement -- window guard, index, array symbol: when C06.R1 cannot reconstruct it, that is C06's open
+    # item; a statement it reads and finds wrong is still reported here)
+    ctx.absorb(assignment_rule, "R9", only=lambda o: not (o.outcome == UNRECOGNISED and o.key.startswith("_assign_rates:") and (pairing.append(o.msg) or True)))
     if pairing:
         ctx.note("C06.R1 does not read how _assign_rates pairs statements with reactions: " + pairing[0][:120])
         _r9_rate_from_rateexpr(ctx, pkg)
@@ -321,7 +323,8 @@ def _r9_refusal_not_caught(ctx, pkg):
                 names = {"BaseException"} if h.type is None else {ast.unparse(e).split(".")[-1] for e in (h.type.elts if isinstance(h.type, ast.Tuple) else [h.type])}
                 if not (names & CATCHES):
                     continue
-                reraises = any(isinstance(x, ast.Raise) for st in h.body for x in ast.walk(st))
+                reraises = any(isinstance(x, ast.Raise) or (isinstance(x, ast.Call) and ast.unparse(x.func) in ("sys.exit", "exit", "quit", "os._exit", "os.abort"))
+                               for st in h.body for x in ast.walk(st))
                 ctx.check(reraises, "R9", f"{file}:rateexpr() refusal handled", (file, h.lineno),
                           "the handler re-raises" if reraises else
                           f"`except {', '.join(sorted(names))}` around {ast.unparse(calls[0])[:50]} carries on without raising: a request the dust model refuses "
@@ -537,6 +540,80 @@ def _network_field(ctx, field):
     return simp(a) if a is not None else None
 
 
+_SELECTING = {"select", "reject", "selectattr", "rejectattr", "slice", "batch", "first", "last", "random", "unique"}
+
+
+def _surface_selection(var, fs, tests):
+    """Which species of `network.species` reach the body of the eb_ loop, whatever way the selection is spelled: the filters `fs`
+    applied to the list (`selectattr("is_surface")`, `rejectattr(..)`, ..) and the conditions `tests` on the loop species (the
+    loop's own `if`, an `{% if %}` around the whole body), split into conjuncts.
+    -> (surface, wrong, unknown): the number of conditions that say `<species>.is_surface`, descriptions of UNDERSTOOD conditions that
+    select something else (a further condition on the loop species, the negated flag, a slice), descriptions of what is not read."""
+    from .. import jmodel as J
+    surface, wrong, unknown = 0, [], []
+    FLAG = ("const", "is_surface")
+    for name, args, kws in fs:
+        if name == "list" and not args and not kws:
+            continue
+        if name in ("selectattr", "rejectattr") and not kws and args and args[0] == FLAG:
+            # the flag alone, or tested `true` / `== true` / `false`
+            pol = name == "selectattr"
+            rest = tuple(args[1:])
+            if rest in ((), (("const", "true"),)) or (len(rest) == 2 and rest[0][0] == "const" and rest[0][1] in ("eq", "equalto", "==", "sameas") and rest[1] == ("const", True)):
+                pass
+            elif rest == (("const", "false"),) or (len(rest) == 2 and rest[0][0] == "const" and rest[0][1] in ("eq", "equalto", "==", "sameas") and rest[1] == ("const", False)):
+                pol = not pol
+            else:
+                unknown.append(f"{name}{tuple(J.show(a) for a in args)}")
+                continue
+            if pol:
+                surface += 1
+            else:
+                wrong.append(f"{name}({', '.join(J.show(a) for a in args)}) keeps the species that are NOT on the surface")
+        elif name in _SELECTING:
+            wrong.append(f"a further selection `{name}({', '.join(J.show(a) for a in args)})`")
+        else:
+            unknown.append(f"the filter `{name}`")
+
+    def conjuncts(t):
+        return conjuncts(t[1]) + conjuncts(t[2]) if t[0] == "and" else [t]
+    vars_ = J._targets(var)
+    for test in tests:
+        for c in conjuncts(test):
+            t, pol = J.canon_test(c)
+            if t[0] == "test" and t[1] in ("true", "false") and not t[3]:
+                t, pol = t[2], pol == (t[1] == "true")
+            if t[0] == "cmp" and len(t[2]) == 1 and t[2][0][0] == "eq" and t[2][0][1] in (("const", True), ("const", False)):
+                t, pol = t[1], pol == t[2][0][1][1]
+            if t == ("attr", var, "is_surface"):
+                if pol:
+                    surface += 1
+                else:
+                    wrong.append(f"`{J.show(c)}` keeps the species that are NOT on the surface")
+            elif t[0] in ("attr", "cmp", "test", "item") and J.names_of(c) and J.names_of(c) <= vars_ and not any(x[0] in ("call", "filter") for x in J._subterms(c) if isinstance(x, tuple) and x):
+                # a plain condition on an attribute of the loop species: a further selection among them
+                wrong.append(f"a further condition `{J.show(c)}`")
+            else:
+                unknown.append(f"the condition `{J.show(c)}`")
+    return surface, wrong, unknown
+
+
+def _eb_loop(it):
+    """is this `for` item the loop that emits `eb_<..>`?  -> (body holding the text `eb_`, [conditions around it inside the loop])
+    when the text stands in the loop body itself or in an `{% if %}` (without else) that is all the loop body contains; else None"""
+    body, tests = it[3], []
+    for _ in range(4):
+        if any(x[0] == "text" and x[1].rstrip().endswith("eb_") for x in body):
+            return body, tests
+        rest = [x for x in body if not (x[0] == "text" and not x[1].strip())]
+        if len(rest) == 1 and rest[0][0] == "if" and not [x for x in rest[0][3] if not (x[0] == "text" and not x[1].strip())]:
+            tests = tests + [rest[0][1]]
+            body = rest[0][2]
+        else:
+            return None
+    return None
+
+
 def _r6(ctx):
     """The templates that say `eb_<alias>` read a C constant: it must be defined, for every ice species, from the SAME species'
     binding energy, printed as Python prints the float (repr round-trips; a format filter rounds)."""
@@ -545,24 +622,31 @@ def _r6(ctx):
     for rel, need_value in ((CONST_C, True), (CONST_H, False)):
         ctx.saw(rel)
         # ({% set %} names and macro parameters read as what they stand for; a loop over `S | map(..)` already iterates S)
-        loops = [it for it, _ in J.walk_items(J.inline_sets(J.flatten(ctx.tree, rel, {}))) if it[0] == "for" and any(x[0] == "text" and x[1].rstrip().endswith("eb_") for x in it[3])]
+        loops = [it for it, _ in J.walk_items(J.inline_sets(J.flatten(ctx.tree, rel, {}))) if it[0] == "for" and _eb_loop(it) is not None]
         if len(loops) != 1:
             ctx.missing("R6", f"{rel}:eb_ loop", (rel, 0), f"expected one loop emitting eb_<alias>, found {len(loops)}")
             continue
         lp = loops[0]
-        var, it_, body = lp[1], lp[2], lp[3]
+        var, it_ = lp[1], lp[2]
+        body, inner_tests = _eb_loop(lp)
         n += 1
         k = f"{rel.rsplit('/', 1)[1]}:eb_"
         SPECS = ("attr", ("name", "network"), "species")
-        dom_ok = it_ == ("filter", "selectattr", SPECS, (("const", "is_surface"),), ()) or it_ == SPECS
         base_, fs_ = J.unfilter(it_)
         dkey = f"{k}:every ice species"
-        if dom_ok and lp[7] is None:
-            ctx.ok("R6", dkey, (rel, lp[5]), "one constant per surface species of the network")
-        elif base_ == SPECS and (lp[7] is not None or any(f[0] in ("select", "reject", "selectattr", "rejectattr", "slice", "batch") for f in fs_)):
-            # understood and wrong: the species list with a further selection
-            ctx.bad("R6", dkey, (rel, lp[5]), "one constant per surface species of the network", expected="network.species | selectattr('is_surface')", found=J.show(it_) + (f" if {J.show(lp[7])}" if lp[7] is not None else ""))
-        elif base_[0] == "attr" and base_[1] == ("name", "network") and not fs_ and lp[7] is None and _network_field(ctx, base_[2]) is not None:
+        tests_ = ([lp[7]] if lp[7] is not None else []) + inner_tests
+        spelled = J.show(it_) + "".join(f" if {J.show(t)}" for t in tests_)
+        if base_ == SPECS:
+            # the species list, selected by ROLE: the conditions `<species>.is_surface` -- as selectattr filter, as the loop's own
+            # `if`, as an `{% if %}` around the body -- and nothing else.  Understood and wrong: a further / another selection
+            surface, wrong, unknown = _surface_selection(var, fs_, tests_)
+            if wrong:
+                ctx.bad("R6", dkey, (rel, lp[5]), "one constant per surface species of the network", expected="network.species | selectattr('is_surface')", found=f"{spelled}: {wrong[0]}")
+            elif unknown:
+                ctx.unrec("R6", dkey, (rel, lp[5]), f"cannot tell which species the eb_ constants are emitted for: {spelled} ({unknown[0]} is not understood)")
+            else:
+                ctx.ok("R6", dkey, (rel, lp[5]), "one constant per surface species of the network")
+        elif base_[0] == "attr" and base_[1] == ("name", "network") and not [f for f in fs_ if f[0] != "list"] and not tests_ and _network_field(ctx, base_[2]) is not None:
             # another field of the NetworkInfo handed to the templates: what the renderer puts into it
             fv = _network_field(ctx, base_[2])
             sel = None
@@ -578,7 +662,7 @@ def _r6(ctx):
             else:
                 ctx.unrec("R6", dkey, (rel, lp[5]), f"cannot tell which species the eb_ constants are emitted for: network.{base_[2]} = {show(fv)[:100]}")
         else:
-            ctx.unrec("R6", dkey, (rel, lp[5]), f"cannot tell which species the eb_ constants are emitted for: {J.show(it_)}")
+            ctx.unrec("R6", dkey, (rel, lp[5]), f"cannot tell which species the eb_ constants are emitted for: {spelled}")
         idx = [i for i, x in enumerate(body) if x[0] == "text" and x[1].rstrip().endswith("eb_")][0]
         name = body[idx + 1] if idx + 1 < len(body) else None
         nkey = f"{k}:name"
@@ -595,7 +679,17 @@ def _r6(ctx):
             # understood and wrong: a filter / format over the species' binding energy, or another attribute of the loop species
             reads_eb = val is not None and val[0] == "out" and not good and any(x in (("attr", var, "eb"), ("attr", var, "binding_energy")) for x in J._subterms(val[1]))
             other_attr = vbase is not None and not good and vbase[0] == "attr" and vbase[1] == var
-            if good or reads_eb or other_attr:
+            # printed through something that prints a float as Python does (`| string`, `"%s" | format(x)`): the same digits
+            if reads_eb and val[1][0] == "filter" and val[1][2] in (("attr", var, "eb"), ("attr", var, "binding_energy")) and val[1][1] in ("string", "safe", "trim") and not val[1][3] and not val[1][4]:
+                good = True
+            if reads_eb and val[1][0] == "filter" and val[1][1] == "format" and val[1][2] in (("const", "%s"), ("const", "%r")) and tuple(val[1][3]) in ((("attr", var, "eb"),), (("attr", var, "binding_energy"),)) and not val[1][4]:
+                good = True
+            # understood and wrong: a numeric format / rounding of the binding energy, another (existing) attribute of the loop species
+            rounding = reads_eb and not good and any(isinstance(x, tuple) and x and ((x[0] == "filter" and x[1] in ("round", "int", "float", "abs")) or
+                                                     (x[0] == "const" and isinstance(x[1], str) and re.search(r"%[-+ #0-9.]*[defgEG]|\{[^}]*:[^}]*[defgEG%]\}", x[1]))) for x in J._subterms(val[1]))
+            sp_ = package(ctx.tree).cls("Species")
+            other_attr = other_attr and (vbase[2] in sp_.methods or vbase[2] in sp_.attrs)
+            if good or rounding or other_attr:
                 ctx.check(good, "R6", f"{k}:value", (rel, lp[5]), "the value is the same species' binding energy, printed unrounded" if good else
                           "the constant is not the loop species' binding energy printed as-is (a filter/format rounds or another value is printed): rates reading eb_<alias> differ from those inlining the value",
                           expected="{{ s.eb }}", found=J.show(val[1]) if val is not None and val[0] == "out" else str(val)[:80])
@@ -661,7 +755,11 @@ def _r1(ctx, rm, pkg):
             dc, fn = pkg.resolve(G, mname)
             key = f"{G}:{mname}"
             if fn is None:
-                ctx.bad("R1", key, (pkg.cls(G).file, 0), f"Grain.rateexpr dispatches type {tau} to {mname}, which {G} does not have")
+                if any(mname in pkg.cls(c_).attrs for c_ in pkg.mro(G) if c_ in pkg.classes):
+                    # (`rate_x = _refuse` in a class body: a method under another name)
+                    ctx.unrec("R1", key, (pkg.cls(G).file, 0), f"{mname} is bound in a class body by an assignment, not a `def`: what it does is not read")
+                else:
+                    ctx.bad("R1", key, (pkg.cls(G).file, 0), f"Grain.rateexpr dispatches type {tau} to {mname}, which {G} does not have")
                 continue
             n += 1
             vs = rm.variants(G, mname)
@@ -714,7 +812,15 @@ def _r1(ctx, rm, pkg):
             for gd in f.guards:
                 for sg in split_guard(gd):
                     c, pol = norm_guard((simp(sg[0]), sg[1]))
-                    if c[0] == "cmp" and c[1] == ("Eq",) and len(c[2]) == 2 and not pol:
+                    if c[0] == "cmp" and c[1] == ("In",) and len(c[2]) == 2 and not pol and c[2][0] == ("attr", ("param", pname), "reaction_type") \
+                            and c[2][1][0] in ("tuple", "list", "set") and c[2][1][1]:
+                        # `if reac.reaction_type not in (A, ..): raise`: refuses every type outside the display
+                        members = [rm.enum_of_ir("Grain", y) for y in c[2][1][1]]
+                        if tau in members:
+                            ok = True
+                        elif all(m_ is not None for m_ in members):
+                            other += members
+                    if c[0] == "cmp" and c[1] in (("Eq",), ("Is",)) and len(c[2]) == 2 and not pol:
                         a, b = c[2]
                         for x, y in ((a, b), (b, a)):
                             if x == ("attr", ("param", pname), "reaction_type"):
@@ -756,6 +862,9 @@ def _r1(ctx, rm, pkg):
             ctx.bad("R1", key_, (g.file, fn.lineno), msg_, expected=f"raise unless reaction_type == {tau}", found=f"validated against type {sorted(set(other))}")
         elif opaque:
             ctx.unrec("R1", key_, (g.file, fn.lineno), f"no test of the reaction type is visible in the method; it may sit in {sorted(set(opaque))}, which is not understood")
+        elif any(isinstance(x, ast.Attribute) and x.attr == "reaction_type" for x in ast.walk(fx)) or not any(isinstance(x, ast.Raise) for x in ast.walk(fx)) and any(isinstance(x, ast.Call) for x in ast.walk(fx)):
+            # the method does look at the reaction type (a membership test, a table lookup ..) / hands the reaction to something else: not read
+            ctx.unrec("R1", key_, (g.file, fn.lineno), "the method reads the reaction type / calls something, but no `raise` under a comparison of the type with one ReactionType member is seen")
         else:
             ctx.bad("R1", key_, (g.file, fn.lineno), msg_, expected=f"raise unless reaction_type == {tau}", found="no raise under a test of the reaction type")
 
@@ -763,6 +872,9 @@ def _r1(ctx, rm, pkg):
 def _is_base_call(pkg, dc, fn, mname, st) -> bool:
     """is statement `st` of override `dc.mname` the call of the base-class method with the override's own argument?
     super().m(reac) / super(Cls, self).m(reac) / Base.m(self, reac)"""
+    if isinstance(st, ast.Assign) and len(st.targets) == 1 and isinstance(st.targets[0], ast.Name) and isinstance(st.value, ast.Call):
+        # `_ = super().m(reac)` / `base = super().m(reac)`: the base method has run all the same
+        st = ast.Expr(value=st.value)
     if not (isinstance(st, ast.Expr) and isinstance(st.value, ast.Call) and isinstance(st.value.func, ast.Attribute) and st.value.func.attr == mname):
         return False
     call, recv = st.value, st.value.func.value
@@ -888,12 +1000,20 @@ def _r2_r5(ctx, rm, pkg):
     _TWO[0] = False
     vs = [v for v in rm.variants("RR07Grain", "rate_depletion") if v.kind == "text"]
     from ..valueflow import guards_satisfiable
-    ELEC = ("attr", ("sub", ("attr", REAC, "reactants"), ("const", 0)), "is_electron")
     for v in vs:
         if not guards_satisfiable(v.conds):
             continue        # a combination of conditions no species satisfies (e.g. electron and not electron)
-        el = not guards_satisfiable(v.conds, [(ELEC, False)])      # the conditions of this arm force the electron
+        # `<the accreting species>.is_electron`, however that species is picked (position 0, unpacking, the non-grain reactant)
+        elec = {x for c_, _ in v.conds for x in walk(c_) if isinstance(x, tuple) and len(x) == 3 and x[0] == "attr" and x[2] == "is_electron" and species_role(x[1]) in ("s", "ng")}
+        el = any(not guards_satisfiable(v.conds, [(a, False)]) for a in elec)      # the conditions of this arm force the electron
+        non_el = any(not guards_satisfiable(v.conds, [(a, True)]) for a in elec)   # ... or exclude it
         names = {h: (name_hole(ir)[0] or "UNKNOWN") for h, ir in v.holes.items()}
+        if "UNKNOWN" in names.values() or not (el or non_el):
+            # a pasted value that is not understood, or an arm that is not seen to be (or not to be) the electron's: its mass
+            # dependence is not judged
+            ctx.unrec("R5", f"RR07Grain.rate_depletion:arm@{v.line}", (v.file, v.line), "cannot tell whether this arm of the accretion law is the electron's / which values it pastes: "
+                      + "; ".join(show(c_)[:50] for c_, _ in v.conds)[:160])
+            continue
         txt = re.sub(r"H\d+_", lambda m: names.get(m.group(0), m.group(0)), v.text)
         try:
             c = calg.canon_str(txt)
@@ -1012,6 +1132,7 @@ def _r3(ctx, pkg):
         if must_raise:
             raises = [f for f in fl.facts if f.kind == "raise"]
             left = [x[2] for f in fl.facts if f.value is not None for x in walk(simp(f.value)) if isinstance(x, tuple) and len(x) == 5 and x[0] == "meth" and x[1] == SELF]
+            left += [c.func.id for c in ast.walk(fn) if isinstance(c, ast.Call) and isinstance(c.func, ast.Name) and (SPECIES, c.func.id) in pkg.functions]
             if raises or not left:
                 ctx.check(bool(raises), "R3", f"Species.{prop}:raises", (SPECIES, fn.lineno), "a surface species without any binding energy is refused with an error")
             else:
@@ -1226,3 +1347,23 @@ def _r12_tunnelling(ctx, pkg):
                         "barrier-tunnelling terms that Hasegawa & Herbst 1993 give to atomic and molecular hydrogen only", expected="<reactant>.name in ['GH', 'GH2']", found=src[:100])
     ctx.floor("R12", "name-based tunnelling selections", n_ok, 1, (HF, ci.node.lineno))
 
+
+# ---- wave 4: everyday spellings of the eb_ loops, the base validation and the accretion arms
+_EB_C = '{% for s in network.species | selectattr("is_surface") -%}\n{{ spec }} double eb_{{ s.alias }} = {{ s.eb }};\n{% endfor %}\n'
+_EB_H = '{% for s in network.species | selectattr("is_surface") -%}\nextern {{ spec }} double eb_{{ s.alias }};\n{% endfor %}\n'
+BENIGN += [
+    {"name": "eb-loop-condition-instead-of-selectattr", "edits": [
+        {"file": CONST_C, "old": _EB_C, "new": '{% for ice in network.species if ice.is_surface -%}\n{{ spec }} double eb_{{ ice.alias }} = {{ ice.eb }};\n{% endfor %}\n'},
+        {"file": CONST_H, "old": _EB_H, "new": '{% for ice in network.species if ice.is_surface -%}\nextern {{ spec }} double eb_{{ ice.alias }};\n{% endfor %}\n'}]},
+    {"name": "eb-if-inside-the-loop", "edits": [
+        {"file": CONST_C, "old": _EB_C, "new": '{% for s in network.species -%}\n{% if s.is_surface -%}\n{{ spec }} double eb_{{ s.alias }} = {{ s.eb }};\n{% endif -%}\n{% endfor %}\n'},
+        {"file": CONST_H, "old": _EB_H, "new": '{% for s in network.species -%}\n{% if s.is_surface -%}\nextern {{ spec }} double eb_{{ s.alias }};\n{% endif -%}\n{% endfor %}\n'}]},
+    {"name": "eb-ice-list-set-once", "file": CONST_C, "old": _EB_C, "new": '{% set ices = network.species | selectattr("is_surface") | list -%}\n{% for ice in ices -%}\n{% set energy = ice.eb -%}\n{{ spec }} double eb_{{ ice.alias }} = {{ energy }};\n{% endfor %}\n'},
+    {"name": "base-validation-spelled-is-not", "file": GR, "old": "        if reac.reaction_type != ReactionType.GRAIN_FREEZE:", "new": "        if reac.reaction_type is not ReactionType.GRAIN_FREEZE:"},
+    {"name": "rr07-accreting-species-unpacked", "file": RR, "old": "        super().rate_depletion(reac)\n\n        spec = reac.reactants[0]\n", "new": "        _ = super().rate_depletion(reac)\n\n        (spec,) = reac.reactants\n"},
+]
+MUTANTS += [
+    {"name": "eb-only-for-strongly-bound-ices", "file": CONST_C, "old": _EB_C, "new": _EB_C.replace(" -%}\n{{ spec", " if s.eb > 1000 -%}\n{{ spec", 1), "rules": ["R6"]},
+    {"name": "eb-for-the-gas-species", "file": CONST_C, "old": _EB_C, "new": _EB_C.replace('selectattr("is_surface")', 'rejectattr("is_surface")'), "rules": ["R6"]},
+    {"name": "eb-if-inside-the-loop-negated", "file": CONST_C, "old": _EB_C, "new": '{% for s in network.species -%}\n{% if not s.is_surface -%}\n{{ spec }} double eb_{{ s.alias }} = {{ s.eb }};\n{% endif -%}\n{% endfor %}\n', "rules": ["R6"]},
+]
